@@ -115,6 +115,50 @@ def binding_skeletons(f):
     return [hashlib.sha1(first.get(n, "?").encode()).hexdigest()[:10] for n, _ in seq]
 
 
+def binding_dependencies(f):
+    """for each local of f (order of first binding): which parameters (by name) and which locals (by POSITION in the binding order) the statement that
+    first binds it reads.  Invariant under a renaming of the locals and under respelling of the statements; different when temporaries were removed / added."""
+    seq, params = binding_sequence(f)
+    pos = {n: i for i, (n, _) in enumerate(seq)}
+    first = {}
+
+    def reads(node):
+        out = set()
+        for x in ast.walk(node):
+            if isinstance(x, ast.Name) and isinstance(x.ctx, ast.Load):
+                if x.id in params:
+                    out.add("p:" + x.id)
+                elif x.id in pos:
+                    out.add("l:%d" % pos[x.id])
+        return sorted(out)
+
+    def rec(stmts):
+        for s_ in stmts:
+            if isinstance(s_, (ast.FunctionDef, ast.AsyncFunctionDef, ast.ClassDef)):
+                continue
+            tg, src = [], None
+            if isinstance(s_, ast.Assign):
+                tg, src = s_.targets, s_.value
+            elif isinstance(s_, (ast.AugAssign, ast.AnnAssign)):
+                tg, src = [s_.target], s_.value
+            elif isinstance(s_, (ast.For, ast.AsyncFor)):
+                tg, src = [s_.target], s_.iter
+            elif isinstance(s_, (ast.With, ast.AsyncWith)):
+                tg, src = [it.optional_vars for it in s_.items if it.optional_vars is not None], s_.items[0].context_expr
+            for t in tg:
+                for x in ast.walk(t):
+                    if isinstance(x, ast.Name) and isinstance(x.ctx, ast.Store) and x.id not in first and x.id not in params:
+                        first[x.id] = reads(src) if src is not None else []
+            for attr in ("body", "orelse", "finalbody"):
+                b = getattr(s_, attr, None)
+                if isinstance(b, list):
+                    rec(b)
+            for h in getattr(s_, "handlers", []) or []:
+                rec(h.body)
+    rec(f.body)
+    return [first.get(n, ["?"]) for n, _ in seq]
+
+
 def qualnames(tree):
     out = []
 
@@ -145,7 +189,7 @@ def undo_renames(tree, relpath):
             continue
         # position-by-position renaming is only meaningful if the locals are bound by statements of the same shape (a function whose
         # temporaries were removed and added can have the same NUMBER of locals by coincidence)
-        if r.get("skel") is not None and binding_skeletons(f) != r["skel"]:
+        if r.get("skel") is not None and binding_skeletons(f) != r["skel"] and not (r.get("deps") is not None and binding_dependencies(f) == r["deps"]):
             continue
         # the renaming must be a bijection of the local names and must not capture another name used in the function
         cur_names = {n for n, _ in seq}
